@@ -4,7 +4,7 @@ import os
 
 VERIF = os.path.dirname(os.path.dirname(os.path.abspath(__file__)))
 
-ARENA_NOTE = ("assumes the small-scope hypothesis (arena of N cells, sizes 0..K and HUGE, see evidence coverage.scopes); trusted: TLC, "
+ARENA_NOTE = ("besides the generated calls, the calls made by the repository's own test programs are recorded (harness/hwrap.c) and judged by the same TraceArena.tla; assumes the small-scope hypothesis (arena of N cells, sizes 0..K and HUGE, see evidence coverage.scopes); trusted: TLC, "
               "gcc, the guard-page/handler-counting executor harness/hx.c (records only, never judges); library-internal objects are not "
               "observed by guard pages")
 
@@ -26,9 +26,9 @@ CLAIMS = {
                 text="for every combination of simultaneously violated constraints in scope the contract admits exactly one handler call whose code equals the returned code; observed handler logs and return codes are judged by TLC; HUGE operands live in inaccessible memory",
                 ref="§3 C05"),
     "C06": dict(level="model_checking", tech="TLA+ contract vs independent reference semantics (C06_T) + replay + TLC trace validation",
-                text="TLC checks the contract's success templates against an independently written reference of the standard functions (no silent truncation included) and judges every recorded success cell by cell, returned pointers/counts included",
+                text="TLC checks the contract's success templates against an independently written reference of the standard functions (no silent truncation included) and judges every recorded success cell by cell, returned pointers/counts included; an implementation-shaped model of mem_prim_move (MemMove.tla: direction choice, alignment head, word copies, tail) is checked to have memmove semantics for every placement and alignment",
                 ref="§3 C06"),
-    "C07": dict(level="model_checking", tech="TLA+ overlap model over all relative placements + replay + TLC trace validation",
+    "C07": dict(level="model_checking", tech="TLA+ overlap model over all relative placements + algorithm-layer model of the bumper loops refining it (Bumper.tla) + replay + TLC trace validation",
                 text="all offsets of src relative to dest inside one arena are enumerated by TLC; C07_T fixes the disjoint / must-reject regions; recorded events are judged (ESOVRLP on disjoint operands, success on intersecting read/write sets, corrupted copies)",
                 ref="§3 C07"),
     "C08": dict(level="model_checking", tech="TLA+ contract model (slack cells) + dirty-prefill replay in both builds + TLC trace validation",
